@@ -1,7 +1,7 @@
 """C06 - a genome's signature depends only on its biological content.
 
 Seam: calc_file_signature(kspec, SequenceFile(path, 'fasta', 'auto')) on real files.
-Biological dimension (FULL product): every genome of c<=3 contigs drawn from 6 short contigs x every orientation vector (2^c) x every contig
+Biological dimension (FULL product): every genome of c<=3 contigs drawn from 8 short contigs x every orientation vector (2^c) x every contig
 order (c!).  Formatting dimensions: case pattern, line width (incl. 1, L-1, L, L+1), line ending, final newline, gzip, file name (content and
 name chosen independently) - default + every <=2 deviations (quick), full product (thorough).
 Oracle: differential (equal to the signature of the default rendering) and absolute (union of refmodel.ref_signature over the individual contigs).
@@ -17,7 +17,7 @@ ID = 'C06'
 LEVEL = 'exploration'
 RULE = ('every (contig subset, orientation vector, contig order) x every formatting vector within the deviation bound; one case = one real file parsed by the '
         'real code; non-trivial = a rendering that differs from the default rendering of the same genome and whose genome has a non-empty signature')
-ASSUMPTIONS = ['genomes of <= 3 short contigs (<= 40 nt); one k-mer spec (k=4, prefix AT) plus the default spec (11/ATGAC) for a slice']
+ASSUMPTIONS = ['genomes of <= 3 short contigs (<= 40 nt) from a pool of 8; one k-mer spec (k=4, prefix AT) plus the default spec (11/ATGAC) for a slice']
 
 CONTIGS = [
 	'GGATCCGTAAT',          # ends with the prefix: nothing may be formed across the boundary
@@ -26,6 +26,8 @@ CONTIGS = [
 	'TTATNCGTATACGCAAT',    # contains N right after an occurrence; ends with the prefix
 	'ACGTACGTATGGCCATTACGATCGAT',
 	'CCCCGGGG',             # no occurrence at all
+	'ATCGCA',               # exactly |prefix|+k: one occurrence flush with BOTH ends (and, reverse-complemented, on the other strand)
+	'GATCGCAC',             # |prefix|+k+2: the same occurrence one letter away from either end
 ]
 K, PREFIX = 4, 'AT'
 
@@ -34,7 +36,7 @@ FMT = dict(
 	width=['60', '1', '2', '3', '7', 'L-1', 'L', 'L+1'],
 	eol=['lf', 'crlf'],
 	final=['yes', 'no'],
-	gz=['no', 'yes'],
+	gz=['no', 'yes', 'multi-member'],
 	name=['x.fasta', 'x.fa.gz', 'x', 'x.gz.fna'],
 )
 
@@ -70,11 +72,14 @@ def write(path, seqs, fmt):
 		lines.extend(s[j:j + w] for j in range(0, len(s), w))
 	txt = eol.join(lines) + (eol if fmt['final'] == 'yes' else '')
 	data = txt.encode('ascii')
-	if fmt['gz'] == 'yes':
+	if fmt['gz'] != 'no':
 		import gzip, io
+		# 'multi-member': a valid gzip file made of several members (what bgzip or `cat a.gz b.gz` produce), cut mid-record
+		cuts = [0, len(data)] if fmt['gz'] == 'yes' else [0, max(1, len(data) // 3), max(2, 2 * len(data) // 3), len(data)]
 		buf = io.BytesIO()
-		with gzip.GzipFile(fileobj=buf, mode='wb', mtime=0) as f:
-			f.write(data)
+		for a, b in zip(cuts, cuts[1:]):
+			with gzip.GzipFile(fileobj=buf, mode='wb', mtime=0) as f:
+				f.write(data[a:b])
 		data = buf.getvalue()
 	with open(path, 'wb') as f:
 		f.write(data)
@@ -198,7 +203,7 @@ def replay(case, kind=None):
 MANIFEST = dict(
 	engine='E-enum',
 	technique='full product of contig subsets x orientations x orders, deviation-bounded formatting vectors, on real FASTA files vs. per-contig reference model',
-	text='Every genome of <=3 contigs from a pool of 6 (incl. contigs ending in the prefix / starting with a k-mer / containing N / too short), in every '
+	text='Every genome of <=3 contigs from a pool of 8 (incl. a contig of exactly |prefix|+k letters, contigs ending in the prefix / starting with a k-mer / containing N / too short), in every '
 	     'orientation and order, rendered under default + <=2 formatting deviations (thorough: all 1536 formats: case, line width 1..L+1, LF/CRLF, final newline, '
 	     'gzip, file name independent of content), is parsed by the real calc_file_signature; the result must equal the default rendering and the union '
 	     'of per-contig model signatures.',
